@@ -88,13 +88,13 @@ DH_HEADER = ("From Coq Require Import ZArith NArith List String.\n"
 def dh_terms(case):
     """case line -> (model term, spec term)"""
     t = case.split()
-    if t[0] == "genpub":
+    if t[0] in ("genpub", "xgenpub"):
         priv = bytes.fromhex(t[1])
-        return ("run_generate_pub 170 %s %s" % (coq_bytes(priv), coq_ent(t[2])),
+        return ("run_%s 170 %s %s" % (t[0].replace("genpub", "generate_pub"), coq_bytes(priv), coq_ent(t[2])),
                 '"err"' if t[2] == "fail" else "spec_generate_pub %s" % coq_bytes(priv))
-    if t[0] == "compute":
+    if t[0] in ("compute", "xcompute"):
         pub, priv = bytes.fromhex(t[1]), bytes.fromhex(t[2])
-        return ("run_compute 170 %s %s %s" % (coq_bytes(pub), coq_bytes(priv), coq_ent(t[3])),
+        return ("run_%s 170 %s %s %s" % (t[0], coq_bytes(pub), coq_bytes(priv), coq_ent(t[3])),
                 '"err"' if t[3] == "fail" else "spec_compute %s %s" % (coq_bytes(pub), coq_bytes(priv)))
     if t[0] == "generate":
         m = "run_generate 170 [%s; %s]" % (coq_ent(t[1])[1:-1] if t[1] != "fail" else "None",
@@ -202,6 +202,13 @@ def gen_dh(ctx):
     for b in [bytes(32), b"\xff" * 32, rnd32(), priv, bytes(31) + b"\x01"][:ctx.n(3, 5)]:
         ctx.count("dh.blind.sweep")
         cases.append("compute %s %s %s" % (hx(be(y, 256)), hx(priv), hx(b)))
+    # --- exponent split as handed to BN_mod_exp (observed through --wrap) ---
+    for b in [bytes(32), b"\xff" * 32, rnd32(), rnd32()][:ctx.n(3, 4)] + [rnd32() for _ in range(ctx.n(0, 60))]:
+        ctx.count("dh.exponents-observed")
+        if r.randrange(2):
+            cases.append("xcompute %s %s %s" % (hx(be(r.randrange(p), 256)), hx(priv_pick()), hx(b)))
+        else:
+            cases.append("xgenpub %s %s" % (hx(priv_pick()), hx(b)))
     # --- entropy failures and crypto_dh_generate ---
     cases.append("compute %s %s fail" % (hx(be(r.randrange(p), 256)), hx(rnd32())))
     cases.append("genpub %s fail" % hx(rnd32()))
@@ -227,6 +234,14 @@ def corpus_cases(sub, prefixes):
 
 
 DH_SRCS = ["crypto/crypto_dh.c", "crypto/crypto_dh_group14.c", "util/warnp.c"]
+DH_WRAPS = ["BN_bin2bn", "BN_new", "BN_CTX_new", "BN_add", "BN_sub", "BN_set_word", "BN_mod_exp", "BN_mod_mul",
+            "BN_free", "BN_clear_free", "BN_CTX_free"]
+
+
+def build_dh_wrap():
+    """the repo's -O2 build (no sanitizer) with the BN_* calls of crypto_dh.c interposed"""
+    return vlib.build_c("drv_dh_wrap", "drv_dh.c", DH_SRCS, cflags=["-DDRV_DH_WRAP"], ldflags=["-lcrypto"],
+                        wraps=DH_WRAPS, asan=False)
 
 
 def check_dh(ctx):
@@ -235,6 +250,10 @@ def check_dh(ctx):
     if not exe:
         ctx.fail(sub, "build", "", "C driver does not build: " + err)
         return
+    wexe, err = build_dh_wrap()
+    if not wexe:
+        ctx.fail(sub, "build", "", "C driver (--wrap build) does not build: " + err)
+        return
     err = ensure_vo(["Crypto/DhEval.vo"])
     if err:
         ctx.fail(sub, "tie", "", err)
@@ -242,9 +261,16 @@ def check_dh(ctx):
     if getattr(ctx, "replay", None) and ctx.replay.get("failing_input", {}).get("sub") == sub:
         cases = [ctx.replay["failing_input"]["case"]]
     else:
-        cases = corpus_cases("dh", ("genpub", "compute", "generate", "sanity", "rfcprime")) + gen_dh(ctx)
-    impl, st = vlib.run_sharded(exe, cases, env={"ASAN_OPTIONS": "detect_leaks=1:abort_on_error=0"})
+        cases = corpus_cases("dh", ("genpub", "compute", "generate", "sanity", "rfcprime", "xgenpub", "xcompute")) + gen_dh(ctx)
+    plain = [c for c in cases if not c.startswith("x")]
+    xs = [c for c in cases if c.startswith("x")]
+    out_plain, st = vlib.run_sharded(exe, plain, env={"ASAN_OPTIONS": "detect_leaks=1:abort_on_error=0"})
     vlib.sanitizer_reports(ctx, sub, st)
+    out_x, st = vlib.run_sharded(wexe, xs)
+    vlib.sanitizer_reports(ctx, sub, st)
+    by_case = dict(zip(plain, out_plain))
+    by_case.update(zip(xs, out_x))
+    impl = [by_case[c] for c in cases]
     terms = []
     for c in cases:
         m, s = dh_terms(c)
@@ -254,7 +280,13 @@ def check_dh(ctx):
     for e in errs[:3]:
         ctx.fail(sub, "tie", "", "model evaluation in coqc failed: " + e)
     model, spec = vals[0::2], vals[1::2]
-    vlib.tri_compare(ctx, sub, cases, impl, model, spec)
+    # the spec knows nothing about how the exponent is split: compare only the result part there
+    impl_res = [a.split(" e=")[0] for a in impl]
+    nd = vlib.tri_compare(ctx, sub, cases, impl_res, [m.split(" e=")[0] for m in model], spec)
+    if nd == 0:
+        # same results but a different exponent split: the correspondence with the model is broken,
+        # no failing input for the property itself
+        vlib.compare(ctx, sub + ".exponents", cases, impl, model, property_pred=lambda c, a, b: (False, None))
     ctx.record(sub, cases, set(zip(cases, impl)),
                "crypto_dh_{generate_pub,compute,generate,sanitycheck} with scripted entropy vs the Coq model "
                "(vm_compute, BigN evaluator proved equal to the Z model) and vs the spec a^(2^258+x) mod p_RFC3526: "
@@ -262,7 +294,8 @@ def check_dh(ctx):
                "and peers constructed (e-th root of a small square in the order-q subgroup) so that the result has "
                "1..255 leading zero bytes; blinding {0, 2^256-1, random, = priv} incl. a sweep on fixed inputs; entropy "
                "failure at each read; sanity check on boundaries and on strings sharing a prefix with p; OpenSSL's own "
-               "RFC 3526 prime vs the spec literal; non-trivial = distinct (case, result)",
+               "RFC 3526 prime vs the spec literal; the two exponents handed to BN_mod_exp (observed by a --wrap build) vs the "
+               "model's blinded_exponents; non-trivial = distinct (case, result)",
                samples=[cases[1][:100], cases[-1][:100]])
 
 
